@@ -3361,6 +3361,8 @@ class RegexMatch(Match):
             v = RegexCharClass((regex_tree.value[1],))
         else:
             v = RegexCharClass((regex_tree.value[0],))
+        if any(ord(x) > 255 for x in v.chars):
+            raise IllegalParseTree("Regular expression contains a character outside the byte range (use a binary regex)", regex_tree)
         ProgramData.imbue(v, DTAG.SOURCE_LINE, regex_tree.line)
         ProgramData.imbue(v, DTAG.SOURCE_COLUMN, regex_tree.column)
         return v
